@@ -345,7 +345,10 @@ def get_first_body_node_loc(body):
         return None
 
     if type(body[0]) in (FunctionDef, AsyncFunctionDef, ClassDef) and body[0].decorator_list:  # type: ignore[attr-defined]
-        return body[0].decorator_list[0].lineno, body[0].col_offset  # type: ignore[attr-defined]
+        # the `@` stands at the column of the def, its expression may go on
+        # anywhere on a later line: @( <newline> dec <newline> )
+        dec = body[0].decorator_list[0]  # type: ignore[attr-defined]
+        return dec.lineno, min(dec.col_offset, body[0].col_offset)
 
     for n in body:
         if n.col_offset >= 0:
